@@ -15,7 +15,9 @@
      C o kind fmt fs ch|layout app                           create (kind e d E D P; app ignored for decoders)
      T o req val                                             ctl with one opus_int32 argument
      E o fmt sig k0 n fd maxb                                encode blocks k0..k0+n-1 (fd: 2.5 ms units) of signal sig
-     D o sid k0 n mode                                       decode packets k0.. of stream sid; mode 0 normal, 1 lost, 2 first by FEC
+     D o sid k0 n mode [fq]                                  decode packets k0.. of stream sid; mode 0 normal, 1 lost, 2 first by FEC;
+                                                             fq (samples, 0 = the stream's packet duration): the frame_size passed
+                                                             on every call of a lost run and on the first call of a normal / FEC run
      Y o o2                                                  copy o -> o2 (memcpy of get_size bytes)
      R o                                                     OPUS_RESET_STATE
      X o                                                     destroy
@@ -25,7 +27,11 @@
    1 speech-like, 2 music-like, 3 noise at -12 dB, 4 full-scale square wave with full-scale noise bursts, 5 noise of +-3 units,
    6 speech with pauses of digital silence, 7 family 4 at -18 dB, 8 pure tone of 64 units, 9 chord of a few hundred units,
    10 / 11 channels with nothing in common, 12..17 very quiet material (tones of 3..20 units, +-1 dither, +-10 noise, fade-outs), 18 / 19 full-scale 70 Hz sine / 90 Hz square.
+   20 / 21 stereo in anti-phase (odd channels = minus the even ones; 20 noise + tones up to 9 kHz, 21 speech-like): what the transform
+   layer codes with the inversion flag in its intensity-stereo bands at low rates.
    P kind R: single-stream packets of duration fd merged `fec` at a time by the repacketizer (the stream's packets last fd*fec).
+   P kind S: single-stream encoder whose layer is forced speech -> transform -> hybrid -> transform -> ... every four packets.
+   After every operation on a live object a G event records what every getter of the object (and of each of its streams) reports.
    Decoders use the format given at creation; each has a float twin ("shadow") fed the same calls, from whose
    output the 24-bit / 16-bit sample relations are measured (mismatch counts, never a verdict).
    Output: NDJSON, one event per op. */
@@ -159,6 +165,19 @@ static opus_int16 sig_sample(int sig, int fs, int c, long i)
    }
    /* families 18, 19: loud low-frequency material whose half waves span frame ends (18: 70 Hz full-scale sine, 19: 90 Hz full-scale
       square wave), so that a frame regularly ends inside a half wave the soft clipper is working on */
+   /* families 20, 21: stereo in anti-phase - every odd channel is minus channel 0 (20: noise with tones up to 9 kHz, 21: the
+      speech-like family).  At low rates the transform layer codes such bands as intensity stereo with the inversion flag set. */
+   if (sig == 20 || sig == 21) {
+      int v;
+      if (sig == 21) v = sig_sample(1, fs, 0, i);
+      else {
+         static const double fr[4] = {500.0, 2500.0, 5000.0, 9000.0}; double tt = (double)i / fs, a = 0.2 * hnoise(20, 0, i);
+         for (h = 0; h < 4; h++) if (fr[h] < 0.45 * fs) a += 0.08 * sin(2 * M_PI * fr[h] * tt + h);
+         v = (int)floor(a * 32767.0 + 0.5);
+      }
+      if (c & 1) v = -v;
+      return (opus_int16)(v > 32767 ? 32767 : v < -32768 ? -32768 : v);
+   }
    if (sig == 18) return (opus_int16)floor(32767.0 * sin(2 * M_PI * 70.0 * (double)i / fs + 0.9 * c) + 0.5);
    if (sig == 19) return (fmod((double)i / fs * 90.0 + 0.23 * c, 1.0) < 0.5) ? 32767 : -32767;
    switch (sig) {
@@ -302,6 +321,39 @@ static opus_uint32 final_range(unsigned char *st, int kind)
    return r;
 }
 
+/* ---------------------------------------------------------------- getter snapshot */
+static int ctlp(unsigned char *st, int kind, int req, opus_int32 *v)
+{
+   switch (kind) {
+   case 'e': return opus_encoder_ctl((OpusEncoder *)st, req, v);
+   case 'd': return opus_decoder_ctl((OpusDecoder *)st, req, v);
+   case 'E': return opus_multistream_encoder_ctl((OpusMSEncoder *)st, req, v);
+   case 'D': return opus_multistream_decoder_ctl((OpusMSDecoder *)st, req, v);
+   case 'P': return opus_projection_decoder_ctl((OpusProjectionDecoder *)st, req, v);
+   }
+   return OPUS_BAD_ARG;
+}
+/* every request of include/opus_defines.h that reads one opus_int32 back (the final range is read as its bit pattern) */
+static const int GETS[] = {4001, 4003, 4005, 4007, 4009, 4011, 4013, 4015, 4017, 4021, 4023, 4025, 4027, 4029, 4031, 4033, 4045, 4037,
+                           4039, 4041, 4043, 4047, 4049, 4051};
+#define NGETS ((int)(sizeof GETS / sizeof GETS[0]))
+/* "req=value," for every getter the object implements, "req!rc," for one that fails otherwise; `only`: 0 all but the pitch, 1 the
+   control outcome of the last call (last packet duration, final range), 2 the pitch (OPUS_GET_PITCH) alone */
+static size_t getters_str(unsigned char *st, int kind, char *buf, size_t cap, int only)
+{
+   size_t n = 0; int q;
+   buf[0] = 0;
+   for (q = 0; q < NGETS && n + 32 < cap; q++) {
+      opus_int32 v = 0x5A5A5A5A; int rc;
+      if (only == 1 && GETS[q] != 4031 && GETS[q] != 4039) continue;
+      if ((only == 2) != (GETS[q] == 4033)) continue;
+      rc = ctlp(st, kind, GETS[q], &v);
+      if (rc == OPUS_OK) n += (size_t)snprintf(buf + n, cap - n, "%d=%d,", GETS[q], (int)v);
+      else if (rc != OPUS_UNIMPLEMENTED) n += (size_t)snprintf(buf + n, cap - n, "%d!%d,", GETS[q], rc);
+   }
+   return n;
+}
+
 static int encode_any(unsigned char *st, int kind, int fmt, const opus_int16 *x16, int n, int ch, unsigned char *out, int maxb)
 {
    int ret = OPUS_BAD_ARG, i, tot = n * ch;
@@ -382,6 +434,43 @@ static int arch_of(obj_t *o)
 static const char *fmtname(int f) { return f == 0 ? "i16" : f == 1 ? "i24" : "f32"; }
 static int is_dec(int kind) { return kind == 'd' || kind == 'D' || kind == 'P'; }
 static int shadow_kind(int kind) { return kind; }
+
+/* G event: what the getters report now - of the object (g: verbatim, all but the pitch; gc: last packet duration and final range
+   only; gp: the pitch, followed for the multistream kinds by a digest of the streams' pitches) and of each of its streams (gs: a
+   digest over the streams' strings without the pitch; "-" for the single-stream kinds) */
+static void op_getters(int oi)
+{
+   obj_t *o = &OB[oi]; char g[1024], gc[96], sub[1024], gs[20], gp[64], subp[64]; int s; size_t np;
+   if (!o->live) return;
+   dirty_stack(next_pat());
+   getters_str(o->st, o->kind, g, sizeof g, 0);
+   getters_str(o->st, o->kind, gc, sizeof gc, 1);
+   np = getters_str(o->st, o->kind, gp, sizeof gp - 20, 2);
+   strcpy(gs, "-");
+   if (o->kind == 'E' || o->kind == 'D' || o->kind == 'P') {
+      uint64_t d = 1469598103934665603ULL, dp = 1469598103934665603ULL;
+      for (s = 0; s < o->nstreams; s++) {
+         size_t n = 0, m = 0;
+         if (o->kind == 'E') {
+            OpusEncoder *e = NULL; opus_multistream_encoder_ctl((OpusMSEncoder *)o->st, OPUS_MULTISTREAM_GET_ENCODER_STATE(s, &e));
+            if (e) { n = getters_str((unsigned char *)e, 'e', sub, sizeof sub, 0); m = getters_str((unsigned char *)e, 'e', subp, sizeof subp, 2); }
+            else n = (size_t)snprintf(sub, sizeof sub, "none");
+         } else {
+            OpusDecoder *dd = NULL;
+            if (o->kind == 'D') opus_multistream_decoder_ctl((OpusMSDecoder *)o->st, OPUS_MULTISTREAM_GET_DECODER_STATE(s, &dd));
+            else opus_projection_decoder_ctl((OpusProjectionDecoder *)o->st, OPUS_MULTISTREAM_GET_DECODER_STATE(s, &dd));
+            if (dd) { n = getters_str((unsigned char *)dd, 'd', sub, sizeof sub, 0); m = getters_str((unsigned char *)dd, 'd', subp, sizeof subp, 2); }
+            else n = (size_t)snprintf(sub, sizeof sub, "none");
+         }
+         d = (d ^ hx_fnv(sub, n)) * 1099511628211ULL;
+         dp = (dp ^ hx_fnv(subp, m)) * 1099511628211ULL;
+      }
+      snprintf(gs, sizeof gs, "%016llx", (unsigned long long)d);
+      snprintf(gp + np, sizeof gp - np, "|%016llx", (unsigned long long)dp);
+   }
+   g_call++;
+   js_open("G"); js_int("o", oi); js_str("g", g); js_str("gc", gc); js_str("gs", gs); js_str("gp", gp); js_close();
+}
 
 static void op_create(int oi, int kind, int fmt, int fs, int chlay, int app)
 {
@@ -579,37 +668,39 @@ static void measure(obj_t *o, int fmt, const void *nat, const float *sf, int N, 
    }
 }
 
-static void op_decode(int oi, int sid, int k0, int n, int mode)
+static void op_decode(int oi, int sid, int k0, int n, int mode, int fq)
 {
    obj_t *o = &OB[oi]; pstream_t *ps; int j, fsamp, lastrc = 0, fmt;
    char ds[16 * 64 + 1], sds[16 * 64 + 1], cnts[12 * 64 + 1], scnts[12 * 64 + 1], rngs[9 * 64 + 1], srngs[9 * 64 + 1];
    size_t a = 0, b = 0, c = 0, d = 0, e = 0, f = 0; uint64_t pd = 1469598103934665603ULL; rel_t rel;
-   if (!o->live || !is_dec(o->kind) || sid < 0 || sid >= MAXPS || !PS[sid].used || n < 1 || n > 64) { js_open("Bad"); js_str("why", "decode"); js_close(); return; }
+   if (!o->live || !is_dec(o->kind) || sid < 0 || sid >= MAXPS || !PS[sid].used || n < 1 || n > 64 || fq < 0 || fq > 24000) { js_open("Bad"); js_str("why", "decode"); js_close(); return; }
    ps = &PS[sid]; fmt = o->fmt;
    fsamp = o->fs / 400 * ps->fd;
    memset(&rel, 0, sizeof rel);
    ds[0] = sds[0] = cnts[0] = scnts[0] = rngs[0] = srngs[0] = 0;
    for (j = 0; j < n; j++) {
-      int idx = (k0 + j) % ps->count, fec = 0, len, ret, sret, vret = 0; const unsigned char *data; unsigned char *dcopy = NULL;
+      int idx = (k0 + j) % ps->count, fec = 0, len, ret, sret, vret = 0, fsz; const unsigned char *data; unsigned char *dcopy = NULL;
       hx_buf nb, sb, vb; opus_uint32 r1, r2; unsigned char tag[5];
       if (mode == 1) { data = NULL; len = 0; }
       else if (mode == 2 && j == 0) { idx = (k0 + 1) % ps->count; fec = 1; data = ps->pk[idx]; len = ps->len[idx]; }
       else { data = ps->pk[idx]; len = ps->len[idx]; }
       if (data) { dcopy = hx_exact(data, (size_t)len); data = dcopy; }
-      tag[0] = (unsigned char)(fec + 2 * (data == NULL)); tag[1] = (unsigned char)len; tag[2] = (unsigned char)(len >> 8); tag[3] = (unsigned char)fsamp; tag[4] = (unsigned char)(fsamp >> 8);
+      /* the frame_size of this call: the caller's on every call of a lost run and on the first call of the other runs */
+      fsz = (fq > 0 && (mode == 1 || j == 0)) ? fq : fsamp;
+      tag[0] = (unsigned char)(fec + 2 * (data == NULL)); tag[1] = (unsigned char)len; tag[2] = (unsigned char)(len >> 8); tag[3] = (unsigned char)fsz; tag[4] = (unsigned char)(fsz >> 8);
       pd = (pd ^ hx_fnv(tag, 5)) * 1099511628211ULL;
       if (data) pd = (pd ^ hx_fnv(data, (size_t)len)) * 1099511628211ULL;
-      nb = hx_buf_new(fmt_size(fmt) * (size_t)fsamp * (size_t)o->ch, 0);
-      sb = hx_buf_new(sizeof(float) * (size_t)fsamp * (size_t)o->ch, 0);
+      nb = hx_buf_new(fmt_size(fmt) * (size_t)fsz * (size_t)o->ch, 0);
+      sb = hx_buf_new(sizeof(float) * (size_t)fsz * (size_t)o->ch, 0);
       fill_pattern(nb.p, nb.n, (unsigned)(g_seed + oi + g_call), g_seed + g_call);
       fill_pattern(sb.p, sb.n, (unsigned)(g_seed + oi + g_call + 1), g_seed + g_call + 5);
-      ret = decode_any(o->st, o->kind, fmt, data, len, nb.p, fsamp, fec);
+      ret = decode_any(o->st, o->kind, fmt, data, len, nb.p, fsz, fec);
       r1 = final_range(o->st, o->kind);
-      sret = decode_any(o->sst, o->kind, 2, data, len, sb.p, fsamp, fec);
+      sret = decode_any(o->sst, o->kind, 2, data, len, sb.p, fsz, fec);
       r2 = final_range(o->sst, o->kind);
       if (o->vst) {
-         vb = hx_buf_new(sizeof(float) * (size_t)fsamp * (size_t)o->ch, 0);
-         vret = decode_any(o->vst, 'D', 2, data, len, vb.p, fsamp, fec);
+         vb = hx_buf_new(sizeof(float) * (size_t)fsz * (size_t)o->ch, 0);
+         vret = decode_any(o->vst, 'D', 2, data, len, vb.p, fsz, fec);
       }
       if (!hx_buf_ok(&nb) || !hx_buf_ok(&sb)) { js_open("Canary"); js_str("where", "pcm"); js_close(); fflush(stdout); exit(96); }
       a += (size_t)snprintf(ds + a, sizeof ds - a, "%016llx", (unsigned long long)hx_fnv(nb.p, ret > 0 ? fmt_size(fmt) * (size_t)ret * (size_t)o->ch : 0));
@@ -626,7 +717,7 @@ static void op_decode(int oi, int sid, int k0, int n, int mode)
    }
    {
       char pds[20]; snprintf(pds, sizeof pds, "%016llx", (unsigned long long)pd);
-      js_open("D"); js_int("o", oi); js_str("fmt", fmtname(fmt)); js_str("pd", pds); js_int("n", n); js_int("mode", mode); js_int("fs", fsamp);
+      js_open("D"); js_int("o", oi); js_str("fmt", fmtname(fmt)); js_str("pd", pds); js_int("n", n); js_int("mode", mode); js_int("fs", fsamp); js_int("fq", fq);
       js_int("rc", lastrc);
       /* dF: one digest over the object's PCM digests, counts and ranges; dE: the same over the float twin's */
       { char one[20]; uint64_t d = ((hx_fnv(ds, strlen(ds)) * 1099511628211ULL ^ hx_fnv(cnts, strlen(cnts))) * 1099511628211ULL) ^ hx_fnv(rngs, strlen(rngs));
@@ -644,11 +735,12 @@ static void op_decode(int oi, int sid, int k0, int n, int mode)
 /* ---------------------------------------------------------------- reference packet streams, bystanders */
 static void op_pstream(int sid, int kind, int fs, int chlay, int app, int br, int fd, int fec, int sig, int count)
 {
-   pstream_t *ps; int size, ch, fsamp, k, merge = 1; unsigned char *blk, *st; opus_int16 *x; unsigned char buf[4000]; uint64_t dg = 1469598103934665603ULL;
+   pstream_t *ps; int size, ch, fsamp, k, merge = 1, sw = 0; unsigned char *blk, *st; opus_int16 *x; unsigned char buf[4000]; uint64_t dg = 1469598103934665603ULL;
    if (sid < 0 || sid >= MAXPS || count < 1 || count > MAXPK) { js_open("Bad"); js_str("why", "pstream"); js_close(); return; }
    ps = &PS[sid];
    for (k = 0; k < MAXPK; k++) { free(ps->pk[k]); ps->pk[k] = NULL; }
    if (kind == 'R') { merge = fec < 1 ? 1 : fec; fec = 0; kind = 'e'; }
+   if (kind == 'S') { sw = 1; kind = 'e'; }
    size = state_size(kind, chlay); ch = obj_channels(kind, chlay);
    if (size <= 0) { js_open("Bad"); js_str("why", "pstream size"); js_close(); return; }
    blk = (unsigned char *)calloc(1, (size_t)size); st = blk;
@@ -660,6 +752,7 @@ static void op_pstream(int sid, int kind, int fs, int chlay, int app, int br, in
    ps->used = 1; ps->kind = kind; ps->fs = fs; ps->chlay = chlay; ps->fd = fd * merge; ps->count = count;
    for (k = 0; k < count; k++) {
       int ret = 0;
+      if (sw && k % 4 == 0) { static const int M[4] = {1000, 1002, 1001, 1002}; ctl1(st, kind, 11002 /* OPUS_SET_FORCE_MODE */, M[(k / 4) % 4]); }
       if (merge == 1) {
          gen_block(x, sig, fs, ch, (long)k * fsamp, fsamp);
          ret = encode_any(st, kind, 0, x, fsamp, ch, buf, (int)sizeof buf);
@@ -721,19 +814,21 @@ int main(int argc, char **argv)
          break;
       case 'C':
          if (sscanf(line, "C %d %c %d %d %d %d", &a[0], &kc2, &a[1], &a[2], &a[3], &a[4]) == 6 && a[0] >= 0 && a[0] < MAXOBJ)
-            op_create(a[0], kc2, a[1], a[2], a[3], a[4]);
+            { op_create(a[0], kc2, a[1], a[2], a[3], a[4]); op_getters(a[0]); }
          break;
-      case 'T': if (sscanf(line, "T %d %d %d", &a[0], &a[1], &a[2]) == 3 && a[0] >= 0 && a[0] < MAXOBJ) op_ctl(a[0], a[1], a[2]); break;
+      case 'T': if (sscanf(line, "T %d %d %d", &a[0], &a[1], &a[2]) == 3 && a[0] >= 0 && a[0] < MAXOBJ) { op_ctl(a[0], a[1], a[2]); op_getters(a[0]); } break;
       case 'E':
          if (sscanf(line, "E %d %d %d %d %d %d %d", &a[0], &a[1], &a[2], &a[3], &a[4], &a[5], &a[6]) == 7 && a[0] >= 0 && a[0] < MAXOBJ)
-            op_encode(a[0], a[1], a[2], a[3], a[4], a[5], a[6]);
+            { op_encode(a[0], a[1], a[2], a[3], a[4], a[5], a[6]); op_getters(a[0]); }
          break;
       case 'D':
-         if (sscanf(line, "D %d %d %d %d %d", &a[0], &a[1], &a[2], &a[3], &a[4]) == 5 && a[0] >= 0 && a[0] < MAXOBJ)
-            op_decode(a[0], a[1], a[2], a[3], a[4]);
+         a[5] = 0;
+         if (sscanf(line, "D %d %d %d %d %d %d", &a[0], &a[1], &a[2], &a[3], &a[4], &a[5]) >= 5 && a[0] >= 0 && a[0] < MAXOBJ) {
+            op_decode(a[0], a[1], a[2], a[3], a[4], a[5]); op_getters(a[0]);
+         }
          break;
-      case 'Y': if (sscanf(line, "Y %d %d", &a[0], &a[1]) == 2 && a[0] >= 0 && a[0] < MAXOBJ && a[1] >= 0 && a[1] < MAXOBJ) op_copy(a[0], a[1]); break;
-      case 'R': if (sscanf(line, "R %d", &a[0]) == 1 && a[0] >= 0 && a[0] < MAXOBJ) op_reset(a[0]); break;
+      case 'Y': if (sscanf(line, "Y %d %d", &a[0], &a[1]) == 2 && a[0] >= 0 && a[0] < MAXOBJ && a[1] >= 0 && a[1] < MAXOBJ) { op_copy(a[0], a[1]); op_getters(a[1]); } break;
+      case 'R': if (sscanf(line, "R %d", &a[0]) == 1 && a[0] >= 0 && a[0] < MAXOBJ) { op_reset(a[0]); op_getters(a[0]); } break;
       case 'X':
          if (sscanf(line, "X %d", &a[0]) == 1 && a[0] >= 0 && a[0] < MAXOBJ) {
             if (OB[a[0]].live) { destroy_obj(&OB[a[0]]); js_open("X"); js_int("o", a[0]); js_close(); }
